@@ -89,10 +89,10 @@ Definition s_ (p r : list cty) : sig := mkSig p r.
 
 (** future/stream intrinsics of payload position [n] of function [fname] (validation.rs
     [maybe_classify_wit_intrinsic] gives the signatures). *)
-Definition payload_intrinsics (m fname : string) (n : nat) (k : pkind) : list core_item :=
+Definition payload_intrinsics_at (m fname : string) (idx : string) (k : pkind) : list core_item :=
   let pre := match k with PFuture => "future" | PStream => "stream" end in
   let rw := match k with PFuture => s_ [I32; I32] [I32] | PStream => s_ [I32; I32; I32] [I32] end in
-  let nm (op : string) := "[" ++ pre ++ "-" ++ op ++ "-" ++ nat_string n ++ "]" ++ fname in
+  let nm (op : string) := "[" ++ pre ++ "-" ++ op ++ "-" ++ idx ++ "]" ++ fname in
   let al (s : string) := "[async-lower]" ++ s in
   [ imp m (nm "new") (s_ [] [I64]);
     imp m (nm "read") rw;  imp m (al (nm "read")) rw;
@@ -102,12 +102,21 @@ Definition payload_intrinsics (m fname : string) (n : nat) (k : pkind) : list co
     imp m (nm "drop-readable") (s_ [I32] []);
     imp m (nm "drop-writable") (s_ [I32] []) ].
 
+Definition payload_intrinsics (m fname : string) (n : nat) (k : pkind) : list core_item :=
+  payload_intrinsics_at m fname (nat_string n) k.
+
+(** The payload-less `future` / `stream` types are addressed as "unit" ([WasmImport::FutureIntrinsic] with
+    [ty: None]); the encoder accepts them for any function name ([prefixed_payload]). *)
+Definition unit_intrinsics (m fname : string) : list core_item :=
+  (payload_intrinsics_at m fname "unit" PFuture ++ payload_intrinsics_at m fname "unit" PStream)%list.
+
 Fixpoint payload_items_from (m fname : string) (n : nat) (ps : list pkind) : list core_item :=
   match ps with
   | [] => []
   | k :: tl => payload_intrinsics m fname n k ++ payload_items_from m fname (S n) tl
   end.
-Definition payload_items (m fname : string) (ps : list pkind) := payload_items_from m fname 0 ps.
+Definition payload_items (m fname : string) (ps : list pkind) :=
+  (payload_items_from m fname 0 ps ++ unit_intrinsics m fname)%list.
 
 (** A function can use the async ABI only if its WIT type is [async]
     ([ManglingAndAbi::for_func]; the component validator rejects `async` canonical options on a
@@ -162,20 +171,7 @@ Definition exported_iface_items (i : iface) : list core_item :=
 
 (** World-independent canonical built-ins and fixed exports (validation.rs
     [classify_component_model_import] / [classify_component_export], legacy names). *)
-Definition unit_payload_items : list core_item :=
-  let m := "$root" in
-  let al (s : string) := "[async-lower]" ++ s in
-  flat_map (fun pk : string * sig =>
-    let (pre, rw) := pk in
-    let nm (op : string) := "[" ++ pre ++ "-" ++ op ++ "-unit]" in
-    [ imp m (nm "new") (s_ [] [I64]);
-      imp m (nm "read") rw;  imp m (al (nm "read")) rw;
-      imp m (nm "write") rw; imp m (al (nm "write")) rw;
-      imp m (nm "cancel-read") (s_ [I32] [I32]);  imp m (al (nm "cancel-read")) (s_ [I32] [I32]);
-      imp m (nm "cancel-write") (s_ [I32] [I32]); imp m (al (nm "cancel-write")) (s_ [I32] [I32]);
-      imp m (nm "drop-readable") (s_ [I32] []);
-      imp m (nm "drop-writable") (s_ [I32] []) ])
-  [ ("future", s_ [I32; I32] [I32]); ("stream", s_ [I32; I32; I32] [I32]) ].
+Definition unit_payload_items : list core_item := unit_intrinsics "$root" "".
 
 Definition builtin_items : list core_item :=
   let r := "$root" in
